@@ -149,7 +149,7 @@ def parse_coverage(stdout):
 
 
 def run_sharded(base, constants, nshards, tag='gen', parallel=16, marker='@@CASE', invariants=(),
-                properties=(), constraints=(), **kw):
+                properties=(), constraints=(), init='Init', next_='Next', **kw):
     """Run `nshards` single-worker TLC processes of module `base` (constants + Shard/NShards) in
     parallel.  Returns (cases, stats)."""
     cases = []
@@ -160,7 +160,7 @@ def run_sharded(base, constants, nshards, tag='gen', parallel=16, marker='@@CASE
             c['Shard'] = s
             c['NShards'] = nshards
             name = 'MC_%s_%s%d' % (base, tag, s)
-            return run_tlc(wd, name, make_cfg(c, invariants=invariants, properties=properties,
+            return run_tlc(wd, name, make_cfg(c, init=init, next_=next_, invariants=invariants, properties=properties,
                                               constraints=constraints, substituted=True),
                            tag='%s%d' % (tag, s), mc_text=make_mc(name, base, c), workers=1, **kw)
         t0 = time.time()
